@@ -29,8 +29,16 @@ pub unsafe extern "C" fn mlock(addr: *const libc::c_void, len: libc::size_t) -> 
     let n = MLOCK_CALLS.fetch_add(1, Ordering::SeqCst) + 1;
     let k = MLOCK_FAIL_FROM.load(Ordering::SeqCst);
     if k > 0 && n as i64 >= k {
-        MLOCK_REFUSED.fetch_add(1, Ordering::SeqCst);
-        *libc::__errno_location() = libc::ENOMEM;
+        let r = MLOCK_REFUSED.fetch_add(1, Ordering::SeqCst);
+        // one of the errno values mlock(2) documents for a refusal, fixed for the whole execution
+        // (chosen by the refusal point k, so every history sees each of them for some k)
+        *libc::__errno_location() = [libc::EAGAIN, libc::ENOMEM, libc::EPERM][(k % 3) as usize];
+        if r > 20_000 {
+            // one execution asks a handful of times; this is a retry loop that never gives up
+            let msg = b"mlock refused more than 20000 times within one execution: the caller retries forever instead of reporting the error\n";
+            libc::write(2, msg.as_ptr() as *const libc::c_void, msg.len());
+            libc::_exit(98);
+        }
         return -1;
     }
     libc::syscall(libc::SYS_mlock, addr, len) as libc::c_int
@@ -148,6 +156,13 @@ pub trait PmCont: Zeroize + NewBytes + Lockable<Self> + Clone + Default + 'stati
     fn build(content: &[u8]) -> Self;
     fn clone_lrw(h: &Locked<Self>) -> Option<Locked<Self>>;
     fn clone_lro(h: &LockedRO<Self>) -> Option<LockedRO<Self>>;
+    /// `Clone::clone_from` between two live handles of the same type-state (false = not offered)
+    fn clone_from_lrw(_dst: &mut Locked<Self>, _src: &Locked<Self>) -> bool {
+        false
+    }
+    fn clone_from_lro(_dst: &mut LockedRO<Self>, _src: &LockedRO<Self>) -> bool {
+        false
+    }
     fn resize_lrw(h: &mut Locked<Self>, n: usize, v: u8) -> bool;
     fn resize_urw(h: &mut Unlocked<Self>, n: usize, v: u8) -> bool;
     fn resize_raw(a: &mut Self, n: usize, v: u8) -> bool;
@@ -180,6 +195,14 @@ impl PmCont for HeapBytes {
     }
     fn clone_lro(h: &LockedRO<Self>) -> Option<LockedRO<Self>> {
         Some(h.clone())
+    }
+    fn clone_from_lrw(dst: &mut Locked<Self>, src: &Locked<Self>) -> bool {
+        dst.clone_from(src);
+        true
+    }
+    fn clone_from_lro(dst: &mut LockedRO<Self>, src: &LockedRO<Self>) -> bool {
+        dst.clone_from(src);
+        true
     }
     fn resize_lrw(h: &mut Locked<Self>, n: usize, v: u8) -> bool {
         h.resize(n, v);
@@ -347,6 +370,8 @@ pub enum Op {
     Zero(u8),
     /// the handle is dropped while a panic unwinds through its owner (release-observer mode)
     DropUnwind(u8),
+    /// `slots[d].clone_from(&slots[1 - d])`: both handles live and of the same type-state
+    CloneFrom(u8),
 }
 
 #[derive(Clone, Debug, PartialEq, Eq)]
@@ -473,6 +498,13 @@ impl<A: PmCont> World<A> {
             if with_raw {
                 v.push(Op::Zero(s));
                 v.push(Op::DropUnwind(s));
+            }
+        }
+        if let (Some(a), Some(b)) = (&self.slots[0], &self.slots[1]) {
+            let (ka, kb) = (a.kind(), b.kind());
+            if ka == kb && ka.0 != Pm::NA && !(ka.1 == Lm::Locked && A::fixed().is_some()) {
+                v.push(Op::CloneFrom(0));
+                v.push(Op::CloneFrom(1));
             }
         }
         v
@@ -607,6 +639,38 @@ impl<A: PmCont> World<A> {
                         self.slots[t] = Some(h2);
                         self.model[t] = None;
                         self.sync_model(t, Some(content));
+                        Outcome::Ok
+                    }
+                }
+            }
+            Op::CloneFrom(d) => {
+                let d = d as usize;
+                let [a, b] = &mut self.slots;
+                let (dst, src) = if d == 0 { (a, b) } else { (b, a) };
+                let (Some(dst), Some(src)) = (dst.as_mut(), src.as_ref()) else { return Outcome::Skipped };
+                let r = guarded(AssertUnwindSafe(|| match (dst, src) {
+                    (Hd::Raw(x), Hd::Raw(y)) => {
+                        x.clone_from(y);
+                        true
+                    }
+                    (Hd::LRW(x), Hd::LRW(y)) => A::clone_from_lrw(x, y),
+                    (Hd::LRO(x), Hd::LRO(y)) => A::clone_from_lro(x, y),
+                    (Hd::URW(x), Hd::URW(y)) => {
+                        x.clone_from(y);
+                        true
+                    }
+                    (Hd::URO(x), Hd::URO(y)) => {
+                        x.clone_from(y);
+                        true
+                    }
+                    _ => false,
+                }));
+                match r {
+                    Err(p) => Outcome::Panic(p),
+                    Ok(false) => Outcome::Skipped,
+                    Ok(true) => {
+                        let content = self.model[1 - d].as_ref().unwrap().content.clone();
+                        self.sync_model(d, Some(content));
                         Outcome::Ok
                     }
                 }
@@ -1137,6 +1201,7 @@ fn op_name(op: &Op) -> String {
         Op::Drop(_) => "Drop".into(),
         Op::Zero(_) => "Zero".into(),
         Op::DropUnwind(_) => "DropUnwind".into(),
+        Op::CloneFrom(_) => "CloneFrom".into(),
     }
 }
 fn outcome_name(o: &Outcome) -> &'static str {
@@ -1523,7 +1588,7 @@ pub fn run_c19() -> i32 {
     let depth = ctx.tier.pick(4usize, 5);
     let mut units = units_for(&[0, 1, 32, PAGE + 1], &[1, 32, 4097]);
     units.push(Unit { cont: "ctors".into(), len: 0 });
-    ctx.rule = format!("fault enumeration over environment answers: for every operation history of length <= {} (same alphabet as C14) and every k from 1 to (number of mlock requests of the fault-free run)+1, the history is re-executed with the k-th and all later mlock calls refused (ENOMEM, in-process interposer); Result-returning calls must return Err (never panic), surviving handles must satisfy the C14 kernel invariant after every step, and after dropping everything the C14 final condition and the C15 release condition must hold; plus 16 composite Result-returning constructors (KeyPair / SigningKeyPair / PrecalcSecretKey locked constructors, StackByteArray::mlock, read-only locked constructors, two-region sequences) x every k; non-trivial = every (history, k) execution", depth);
+    ctx.rule = format!("fault enumeration over environment answers: for every operation history of length <= {} (same alphabet as C14) and every k from 1 to (number of mlock requests of the fault-free run)+1, the history is re-executed with the k-th and all later mlock calls refused (errno EAGAIN / ENOMEM / EPERM chosen by k mod 3; in-process interposer; a caller that retries a refused lock forever is stopped after 20 000 refusals and reported); Result-returning calls must return Err (never panic), surviving handles must satisfy the C14 kernel invariant after every step, and after dropping everything the C14 final condition and the C15 release condition must hold; plus 16 composite Result-returning constructors (KeyPair / SigningKeyPair / PrecalcSecretKey locked constructors, StackByteArray::mlock, read-only locked constructors, two-region sequences) x every k; non-trivial = every (history, k) execution", depth);
     ctx.assume("only mlock is refused; mprotect and allocation failures are not injected");
     let res = spawn_units("fault", &units, depth, 0);
     absorb_units(&mut ctx, "C19", res, &units);
